@@ -33,10 +33,11 @@ const (
 	hStreamWrite
 	hStreamRead
 	hReset
+	hReadFromSameReader
 	nHistOp
 )
 
-var c11OpNames = []string{"encode", "encode-unrepresentable", "WriteTo(aborted by writer fault)", "decode", "decode(damaged/cut stream)", "stream write", "stream read", "Reset"}
+var c11OpNames = []string{"encode", "encode-unrepresentable", "WriteTo(aborted by writer fault)", "decode", "decode(damaged/cut stream)", "stream write", "stream read", "Reset", "ReadFrom(the caller's one reader, next message)"}
 
 const (
 	pEncode = iota
@@ -151,7 +152,24 @@ type c11Earlier struct {
 	snapV string
 }
 
+// pristineMaps returns fresh copies of the maps as the caller supplied them at the start of the run.
+func (st *c11State) pristineMaps() (map[string]reflect.Type, map[string]string) {
+	tm := make(map[string]reflect.Type, len(st.tm0))
+	for k, v := range st.tm0 {
+		tm[k] = v
+	}
+	nm := make(map[string]string, len(st.nm0))
+	for k, v := range st.nm0 {
+		nm[k] = v
+	}
+	return tm, nm
+}
+
 type c11State struct {
+	tm0      map[string]reflect.Type
+	nm0      map[string]string
+	persistBuf *bytes.Buffer // a caller-owned stream that is handed to ReadFrom again and again
+	persistRd  *bufio.Reader
 	o        *Outcome
 	ch       *Choices
 	g        *Gen
@@ -344,6 +362,28 @@ func (st *c11State) histOp(kind int) {
 				}
 			})
 		}
+	case hReadFromSameReader:
+		// the pool benchmark's pattern: one buffer + one bufio.Reader owned by the caller; every message
+		// is appended to the buffer and read with ReadFrom(the same reader object)
+		if st.persistBuf == nil {
+			st.persistBuf = &bytes.Buffer{}
+			st.persistRd = bufio.NewReader(st.persistBuf)
+		}
+		b := c11ValidBytes(g.Value())
+		if ch.Intn(4, "same.dmg") == 1 {
+			b, _, _ = ApplyPlan(b, []TFault{{Kind: TCut, Off: ch.Intn(len(b)+1, "same.cut")}})
+		}
+		st.persistBuf.Write(b)
+		st.around("ReadFrom(same reader)", nil, nil, func() {
+			v, err := in.readFrom(st.persistRd)
+			if err == nil {
+				st.keepVal("ReadFrom(same reader)", v)
+			}
+		})
+		// drop whatever a failed read left behind, as a caller would
+		st.persistRd.Discard(st.persistRd.Buffered())
+		st.persistBuf.Reset()
+		st.o.Probes["ReadFrom called again with the same reader object"]++
 	case hReset:
 		if in.enc != nil {
 			guarded(func() { in.enc.Reset(&bytes.Buffer{}) })
@@ -389,6 +429,19 @@ func c11Probe(in *c11Inst, kind int, v interface{}, data []byte) (r c11ProbeRes)
 	return r
 }
 
+// c11ProbeSameReader reads data with ReadFrom through the caller's persistent reader object.
+func c11ProbeSameReader(in *c11Inst, buf *bytes.Buffer, rd *bufio.Reader, data []byte) (r c11ProbeRes) {
+	buf.Write(data)
+	r.pan = guarded(func() {
+		x, err := in.readFrom(rd)
+		r.canon, _ = Canon(x, CanonOpts{})
+		r.err = maskErr(err)
+	})
+	rd.Discard(rd.Buffered())
+	buf.Reset()
+	return r
+}
+
 func (st *c11State) probe(label string) {
 	ch, g := st.ch, st.g
 	kind := ch.Intn(nProbe, "probe.kind")
@@ -415,6 +468,19 @@ func (st *c11State) probe(label string) {
 			data, _, _ = foreignStream(ch, false)
 		}
 	}
+	if kind == pReadFrom && st.persistRd != nil {
+		// the probe goes through the same reader object the history used
+		used := c11ProbeSameReader(st.in, st.persistBuf, st.persistRd, data)
+		ftm, fnm := st.pristineMaps()
+		fb := &bytes.Buffer{}
+		fresh := c11ProbeSameReader(c11New(st.pair, ftm, fnm), fb, bufio.NewReader(fb), data)
+		st.o.Evals++
+		if used.canon != fresh.canon || used.err != fresh.err || used.pan != fresh.pan {
+			st.o.fail("c11/probe-differs", "ReadFrom(same reader)", "%s: after the history %v, ReadFrom through the caller's one reader returned {%s} on the used instance but {%s} on a fresh one",
+				label, st.opLog, used.String(), fresh.String())
+		}
+		return
+	}
 	var used c11ProbeRes
 	var vv interface{} = v
 	if kind == pDecode || kind == pReadFrom {
@@ -427,7 +493,7 @@ func (st *c11State) probe(label string) {
 		vv = nil
 	}
 	st.around("probe "+c11ProbeNames[kind], vv, data, func() { used = c11Probe(st.in, kind, v, data) })
-	ftm, fnm := copyMaps()
+	ftm, fnm := st.pristineMaps()
 	fresh := c11Probe(c11New(st.pair, ftm, fnm), kind, v, data)
 	st.o.Evals++
 	if !bytes.Equal(used.bytes, fresh.bytes) || used.canon != fresh.canon || used.err != fresh.err || used.pan != fresh.pan {
@@ -442,9 +508,26 @@ func runC11(ch *Choices, cfg *RunCfg) (o *Outcome) {
 	setMapOrder(ch.Salt("mapsalt"))
 	pair := ch.Intn(2, "inst.pair") == 1
 	tm, nm := copyMaps()
+	if ch.Intn(5, "tm.odd") == 1 {
+		// a legal but unusual registration: some classes registered through a pointer type
+		salt := ch.Salt("tm.oddsalt")
+		for _, k := range sortedTypeKeys() {
+			if t := tm[k]; t.Kind() == reflect.Struct && mix64(hashString(k)^salt)%3 == 0 {
+				tm[k] = reflect.PtrTo(t)
+			}
+		}
+		o.Probes["caller's type map with classes registered through pointer types"]++
+	}
 	st := &c11State{o: o, ch: ch, g: NewGen(ch, c11Domain()), pair: pair}
 	st.in = c11New(pair, tm, nm)
 	st.tmDigest = mapsDigest(tm, nm)
+	st.tm0, st.nm0 = map[string]reflect.Type{}, map[string]string{}
+	for k, v := range tm {
+		st.tm0[k] = v
+	}
+	for k, v := range nm {
+		st.nm0[k] = v
+	}
 
 	mode := ch.Pick([]int{60, 13, 13, 14}, "mode")
 	switch mode {
@@ -453,7 +536,7 @@ func runC11(ch *Choices, cfg *RunCfg) (o *Outcome) {
 		n := ch.Pick([]int{5, 20, 20, 15, 10, 10, 10, 10}, "hist.len.kind")
 		hlen := []int{0, 1, 2, 3, 5, 8, 15, 30}[n]
 		for i := 0; i < hlen && o.Class == ""; i++ {
-			st.histOp(ch.Pick([]int{20, 8, 22, 15, 15, 8, 8, 4}, "hist.op"))
+			st.histOp(ch.Pick([]int{20, 8, 22, 15, 15, 8, 8, 4, 12}, "hist.op"))
 		}
 		if o.Class == "" {
 			st.probe("history")
@@ -471,7 +554,7 @@ func runC11(ch *Choices, cfg *RunCfg) (o *Outcome) {
 		pv := st.g.Value() // the probe value is fixed for the whole enumeration
 		for k := 1; k <= W && o.Class == ""; k++ {
 			for kind := WErrOnce; kind < nWFault && o.Class == ""; kind++ {
-				tm, nm := copyMaps()
+				tm, nm := st.pristineMaps()
 				in := c11New(pair, tm, nm)
 				w := &FaultyWriter{FaultAt: k, Kind: kind}
 				guarded(func() { in.writeTo(w, v) })
@@ -479,7 +562,7 @@ func runC11(ch *Choices, cfg *RunCfg) (o *Outcome) {
 					o.Faults["WriteTo aborted by a writer fault ("+kind.String()+")"]++
 				}
 				used := c11Probe(in, pEncode, pv, nil)
-				ftm, fnm := copyMaps()
+				ftm, fnm := st.pristineMaps()
 				fresh := c11Probe(c11New(pair, ftm, fnm), pEncode, pv, nil)
 				o.Evals++
 				if !bytes.Equal(used.bytes, fresh.bytes) || used.err != fresh.err || used.pan != fresh.pan {
@@ -535,7 +618,7 @@ func runC11(ch *Choices, cfg *RunCfg) (o *Outcome) {
 		for i := n; i >= 1; i-- {
 			head = &Node{Id: int32(i), Name: "c", Next: head}
 		}
-		ftm, fnm := copyMaps()
+		ftm, fnm := st.pristineMaps()
 		fresh := c11New(pair, ftm, fnm)
 		ue := c11Probe(st.in, pEncode, head, nil)
 		fe := c11Probe(fresh, pEncode, head, nil)
@@ -569,7 +652,7 @@ func runC11(ch *Choices, cfg *RunCfg) (o *Outcome) {
 			pb, _, _ = foreignStream(ch, true)
 		}
 		for k := 0; k <= len(b) && o.Class == ""; k++ {
-			tm, nm := copyMaps()
+			tm, nm := st.pristineMaps()
 			in := c11New(pair, tm, nm)
 			tail := error(nil)
 			if k%2 == 1 {
@@ -578,8 +661,11 @@ func runC11(ch *Choices, cfg *RunCfg) (o *Outcome) {
 			guarded(func() { in.readFrom(NewSimReader(b[:k], tail)) })
 			o.Faults["decode of a cut stream"]++
 			used := c11Probe(in, pDecode, nil, pb)
-			ftm, fnm := copyMaps()
+			ftm, fnm := st.pristineMaps()
 			fresh := c11Probe(c11New(pair, ftm, fnm), pDecode, nil, pb)
+			if d := mapsDigest(tm, nm); d != st.tmDigest {
+				o.fail("c11/input-mutated", "maps", "a decode of a cut stream or the following probe modified the caller's complete maps: %s", firstDiff(st.tmDigest, d))
+			}
 			o.Evals++
 			if used.canon != fresh.canon || used.err != fresh.err || used.pan != fresh.pan {
 				o.fail("c11/probe-differs", "Decode/ToObject", "after ReadFrom of a stream cut at byte %d of %d, Decode returned {%s} on the used instance but {%s} on a fresh one", k, len(b), used.String(), fresh.String())
